@@ -7,9 +7,16 @@
 #include "init.hh"
 #include "value-cst.hh"
 #include "test-zw-aux.hh"
+#ifdef ZWQ_DW
+#include "builtin-dw.hh"
+#endif
 int main (int argc, char **argv)
 {
+#ifdef ZWQ_DW
+  auto voc = std::make_unique <vocabulary> (*dwgrep_vocabulary_core (), *dwgrep_vocabulary_dw ());
+#else
   auto voc = dwgrep_vocabulary_core ();
+#endif
   for (int i = 1; i < argc; ++i)
     {
       try
